@@ -296,6 +296,9 @@ func genModels(t *rapid.T, sameTaxa bool) []*ref.Node {
 	o := gen.Opts{MinTips: 2, MaxTips: 8, Rooted: -1, MaxDeg: 4, Lens: gen.AnyPresence, LenVals: gen.Arbitrary, Sups: gen.AnyPresence, InnerNames: gen.AnyPresence, Comments: rapid.Bool().Draw(t, "comments")}
 	base := gen.Tree(t, o)
 	k := rapid.IntRange(1, 3).Draw(t, "ntrees")
+	if rapid.IntRange(0, 11).Draw(t, "many") == 5 {
+		k = rapid.IntRange(9, 30).Draw(t, "ntreesmany") // more trees than the readers' channel buffers hold
+	}
 	ms := []*ref.Node{base}
 	for i := 1; i < k; i++ {
 		if sameTaxa {
@@ -392,7 +395,7 @@ func anchors() []Case {
 func TestC02Readers(t *testing.T) {
 	h.Run(t, h.Spec[Case]{
 		Property: "C02", Name: "readers", Quick: 40000, Thorough: 1600000, Timeout: 15 * time.Second,
-		Rule: "documents of the five formats written by independent writers from generated trees (multi-Newick layouts, Nexus with TAXA/DATA/TRANSLATE/unknown blocks and comments, PhyloXML, Nextstrain v2), hostile constants, deep nesting, random bytes, cross-format input; 0-4 byte-level mutations (truncate, delete, duplicate, insert dictionary token or random bytes, flip, splice with a second document, replace, swap); every document goes through the format's parser, ReadTreeReader and ReadMultiTrees (drained); every delivered tree is traversed, indexed and written (Newick, Nexus +-translate, PhyloXML, Clone). 3% of the documents also go through the command line (`reformat newick --input-format`, `stats rooted --format`, `unroot -o`): the process must end without a Go panic trace. Oracle: everything returns within 15 s, no panic on any goroutine, no record without tree and error. Non-trivial = a mutated valid document or a hostile constant",
+		Rule: "documents of the five formats written by independent writers from generated trees (1-3 trees, one document in twelve 9-30 trees; multi-Newick layouts, Nexus with TAXA/DATA/TRANSLATE/unknown blocks and comments, PhyloXML, Nextstrain v2), hostile constants, deep nesting, random bytes, cross-format input; 0-4 byte-level mutations (truncate, delete, duplicate, insert dictionary token or random bytes, flip, splice with a second document, replace, swap); every document goes through the format's parser, ReadTreeReader and ReadMultiTrees (drained); every delivered tree is traversed, indexed and written (Newick, Nexus +-translate, PhyloXML, Clone). 3% of the documents also go through the command line (`reformat newick --input-format`, `stats rooted --format`, `unroot -o`): the process must end without a Go panic trace. Oracle: everything returns within 15 s, no panic on any goroutine, no record without tree and error. Non-trivial = a mutated valid document or a hostile constant",
 		Gen:   genCase,
 		Check: check,
 		Anchors: anchors(),
